@@ -142,6 +142,7 @@ def cases(tier, seed):
         out.append({'kind': 'preamble', 'seed': case_seed('C05', seed, 'preamble', i), 'params': {'rec': 'ndarray', 'form': i % 4}})
     for i in range(8 if tier == 'quick' else 80):
         out.append({'kind': 'npconst', 'seed': case_seed('C05', seed, 'npconst', i), 'params': {'form': i}})
+        out.append({'kind': 'polyconst', 'seed': case_seed('C05', seed, 'polyconst', i), 'params': {'form': i}})
     for i in range(3 if tier == 'quick' else 30):
         out.append({'kind': 'constbuf', 'seed': case_seed('C05', seed, 'constbuf', i), 'params': {}})
     for i in range(18 if tier == 'quick' else 300):
@@ -203,6 +204,8 @@ def run_case(ctx, case):
         return _constbuf(ctx, p, rng)
     if case['kind'] == 'npconst':
         return _npconst(ctx, p, rng)
+    if case['kind'] == 'polyconst':
+        return _polyconst(ctx, p, rng)
     if case['kind'] == 'single':
         prog = progs.by_name(p['prog']); f = prog.f; ins = prog.ins; label = prog.name
     else:
@@ -404,6 +407,52 @@ def _preamble(ctx, p, rng):
         if not ok:
             ctx.violation('preamble:replay:value', {'form': form, 'rec': p['rec'], 'replay': [kind, D, P], 'err': err}); return
         ctx.ok('preamble', ('preamble', form, p['rec'], kind, D, P), exact=exact)
+
+
+def _polyconst(ctx, p, rng):
+    """a Taylor-polynomial CONSTANT (a parameter of the program carried along with its own derivatives, not traced) combined with a
+    traced value - on the left and on the right of every operator and as first and as second argument of the two-argument functions:
+    recording yields what the program yields on the unwrapped operands, so does the replay at another point"""
+    D, P = [(1, 1), (2, 1), (3, 2), (2, 3)][p['form'] % 4]
+    n = 3
+    cdat = gen.series_data(rng, D, P, (n,), 'pos', 'random', False, 0.4)
+    Adat = gen.series_data(rng, D, P, (n, n), 'R', 'random', False, 0.3); Adat[0] += 3.0 * np.eye(n)
+    c = UTPM(cdat.copy()); Ac = UTPM(Adat.copy())
+    # (the reflected operator of the traced value evaluates x * c for c * x: the same sum in another order)
+    _same = lambda u, v: bool(np.all(np.abs(u - v) <= 4e-16 * D * np.maximum.accumulate(np.abs(v), axis=0) + 1e-300))
+    forms = [('c + x', lambda x: c + x), ('c - x', lambda x: c - x), ('c * x', lambda x: c * x), ('c / x', lambda x: c / x),
+             ('x + c', lambda x: x + c), ('x / c', lambda x: x / c), ('minimum(c, x)', lambda x: algopy.minimum(c, x)), ('maximum(c, x)', lambda x: algopy.maximum(c, x)),
+             ('maximum(x, c)', lambda x: algopy.maximum(x, c)), ('dot(c, x)', lambda x: algopy.dot(c, x)), ('solve(A, x)', lambda x: algopy.solve(Ac, x.reshape((n, 1)))),
+             ('outer(c, x)', lambda x: algopy.outer(c, x)), ('(c * x) + (c / x) - dot(c, x)', lambda x: (c * x) + (c / x) - algopy.dot(c, x))]
+    for name, f in forms:
+        x0 = gen.series_data(rng, D, P, (n,), 'pos', 'random', False, 0.4) + 1.0
+        try:
+            want = f(UTPM(x0.copy()))
+        except Exception:
+            ctx.skip('unsupported:polyconst:' + name); continue
+        try:
+            cg = CGraph()
+            fx = Function(UTPM(x0.copy()))
+            y = f(fx)
+            cg.trace_off()
+            cg.independentFunctionList = [fx]; cg.dependentFunctionList = [y]
+        except Exception as e:
+            try:
+                cg.trace_off()
+            except Exception:
+                pass
+            ctx.violation('polynomial-constant:recording-raises', {'expression': name, 'D': D, 'P': P, 'error': repr(e)[:160]}); return
+        if not (isinstance(y, Function) and isinstance(y.x, UTPM) and y.x.data.shape == want.data.shape and _same(y.x.data, want.data)):
+            ctx.violation('polynomial-constant:recording-value', {'expression': name, 'D': D, 'P': P}); return
+        x1 = gen.series_data(rng, D, P, (n,), 'pos', 'random', False, 0.4) + 1.0
+        try:
+            got = cg.function([UTPM(x1.copy())])[0]
+        except Exception as e:
+            ctx.violation('polynomial-constant:replay:raises', {'expression': name, 'error': repr(e)[:160]}); return
+        want1 = f(UTPM(x1.copy()))
+        if not (isinstance(got, UTPM) and got.data.shape == want1.data.shape and _same(got.data, want1.data)):
+            ctx.violation('polynomial-constant:replay:value', {'expression': name, 'D': D, 'P': P}); return
+        ctx.ok('polynomial-constant', ('polyconst', name, D, P))
 
 
 def _npconst(ctx, p, rng):
